@@ -283,6 +283,8 @@ def run(repo, rep):
     rep.trust('opaque call atoms carry every formal parameter of the library function (defaults explicit)')
     handler_rules(repo, rep)
     table_rules(repo, rep)
+    from . import common
+    common.identity_compare_rule(repo, rep, 'api.app')
 
 
 def controls(repo):
